@@ -160,7 +160,22 @@ def small_specs():
         N(i, "additionalMetadata", nsmap=EMLNS, kids=[
             N(i, "metadata", nsmap=EMLNS, kids=[N(i, "anything", "goes <here>", prefix="z", nsmap=[("z", "urn:other")], attrs=[("a", "<&>")],
                                                    kids=[N(i, "deeper", None, tail="t&t")])])])])))
+    # a non-closed namespace map: a child lacking one of its parent's prefixes, a grandchild binding it differently
+    i = Ids()
+    out.append(("non-closed-ns", N(i, "dataset", nsmap=[("a", "urn:a"), ("b", "urn:b")], kids=[
+        N(i, "title", "t", nsmap=[("b", "urn:b")], kids=[N(i, "para", "x", nsmap=[("a", "urn:other")])]),
+        person(i, "creator"), person(i, "contact")])))
     return out
+
+
+# documents with default-namespace declarations (prefix None in the imported maps), on the root and on nested elements
+XML_SPECS = [
+    ("default-ns:root", '<eml xmlns="https://eml.ecoinformatics.org/eml-2.2.0" xmlns:xsi="http://www.w3.org/2001/XMLSchema-instance" packageId="p.1.1" system="s">'
+                        '<dataset><title>A title</title><creator><individualName><surName>S</surName></individualName></creator>'
+                        '<contact><individualName><surName>S</surName></individualName></contact></dataset></eml>'),
+    ("default-ns:nested", '<x:dataset xmlns:x="urn:x"><title xmlns="urn:inner" xml:lang="en">T<para>p</para></title>'
+                          '<creator xmlns="urn:other"><individualName><surName>S</surName></individualName></creator><contact/></x:dataset>'),
+]
 
 
 CONTENTS = [None, "", " x ", "a\u00a0b  c", "12", "-3.5", "<&>", "&amp;", "2001-02-03", "word " * 25]
@@ -287,10 +302,10 @@ class Env:
         from metapype.model.node import Node
         self.spec = spec
         NL.reset_store()
-        if "source" in spec:
+        if "source" in spec or "xmltext" in spec:
             # imported once for its shape; rebuilt with deterministic ids (the importer draws uuids),
             # attached through add_child so that namespace maps are shared as the library shares them
-            text = open(os.path.join(common.REPO, spec["source"]), encoding="utf-8").read()
+            text = spec["xmltext"] if "xmltext" in spec else open(os.path.join(common.REPO, spec["source"]), encoding="utf-8").read()
             sn = NL.snapshot(metapype_io.from_xml(text))
             ids = Ids()
 
@@ -479,9 +494,11 @@ def prepare(env, d):
     raise RuntimeError("unknown operation " + op)
 
 
-def perform(env, d, wrap=None):
+def perform(env, d, wrap=None, spoil=False):
     """run one call descriptor; returns {'ok': value} or {'raises': class name}.
-    wrap(thunk) -> value runs the thunk under instrumentation."""
+    wrap(thunk) -> value runs the thunk under instrumentation.  spoil=True: after the result has been recorded, the
+    list / dict the operation RETURNED is emptied by the caller — a returned container is the caller's to change,
+    so this must not reach the tree (the snapshot taken next decides)."""
     thunk, post = prepare(env, d)
     try:
         v = thunk() if wrap is None else wrap(thunk)
@@ -489,7 +506,10 @@ def perform(env, d, wrap=None):
         raise
     except Exception as e:  # noqa: the class is the observable
         return {"raises": type(e).__name__}
-    return {"ok": canon(env, post(v))}
+    res = {"ok": canon(env, post(v))}
+    if spoil and isinstance(v, (list, dict)):
+        v.clear()
+    return res
 
 
 def instances(env, rng, per_op=2):
@@ -752,7 +772,10 @@ def related_calls(env, starts):
         if n.name in evaluate.rules:
             out.append({"op": "evaluate.node", "t": k})
         out.append({"op": "validate.node.collect", "t": k})
-        for c in n.children:
+        kids = list(n.children)
+        if len(kids) > 12:          # many children: the first, the last and some in between (all of them in small trees)
+            kids = kids[:4] + kids[len(kids) // 2 - 2:len(kids) // 2 + 2] + kids[-4:]
+        for c in kids:
             ci = env.index[id(c)]
             out.append({"op": "is_equal", "t": k, "c": ci})
             out.append({"op": "is_equal", "t": ci, "c": k})
@@ -884,15 +907,15 @@ class Runner:
         key = name + ":" + self.label.split(":")[0]
         acc[key] = round(acc.get(key, 0.0) + time.time() - t0, 2)
 
-    def singles(self):
+    def singles(self, repeat=True):
         self.base = []
         for d in self.calls:
-            r = perform(self.env, d)
+            r = perform(self.env, d, spoil=True)
             self.base.append(r)
             self.ctx.case((self.label, json.dumps(d, sort_keys=True)), nontrivial=True)
             self.ctx.count("op:" + d["op"])
             self.ctx.count("result:" + ("raises " + r["raises"] if "raises" in r else "returns"))
-            if not self.check_state([d], d["op"]):
+            if not self.check_state([d], d["op"]) or not repeat:
                 continue
             r2 = perform(self.env, d)
             if r2 != r:
@@ -937,7 +960,7 @@ class Runner:
     def sweep(self, starts):
         calls = sweep_calls(self.env, self.rng, starts) + related_calls(self.env, starts)
         for d in calls:
-            r = perform(self.env, d)
+            r = perform(self.env, d, spoil=True)
             self.ctx.case((self.label, json.dumps(d, sort_keys=True)), nontrivial=True)
             self.ctx.count("path sweep calls")
             if not self.check_state([d], d["op"]):
@@ -990,32 +1013,34 @@ def run(ctx, only_spec=None):
                          "error paths) per tree; per tree: each call alone with a deep snapshot before/after and repeated once; all ordered "
                          "pairs of operations; random permutations of all calls with a snapshot after every call; non-trivial = distinct "
                          "(tree, call descriptor)")
-    specs = [(lbl, {"snapshot": sn, "attach": True}) for lbl, sn in small_specs()]
+    specs = [(lbl, {"snapshot": sn, "attach": lbl != "non-closed-ns"}) for lbl, sn in small_specs()]
+    specs += [(lbl, {"xmltext": xml}) for lbl, xml in XML_SPECS]
     full = ("eml.xml", {"source": os.path.join("tests", "data", "eml.xml")})
     n_perm = 2000 if thorough else 100
     traces = []
     for k, (lbl, spec) in enumerate(specs):
         r = Runner(ctx, spec, lbl, rng, per_op=2)
         ctx.count("tree:" + lbl.split(":")[0])
+        big = r.env.n_tree > 130
         r.timed("singles", r.singles)
-        r.timed("sweep", r.sweep, sweep_starts(r.env, rng))
-        r.timed("pairs", r.pairs)
+        r.timed("sweep", r.sweep, sweep_starts(r.env, rng) if (thorough or not big) else sweep_starts(r.env, rng, n_inner=6, n_leaves=3))
+        r.timed("pairs", r.pairs, limit=150 if (big and not thorough) else None)
         share = n_perm // len(specs) + (1 if k < n_perm % len(specs) else 0)
-        r.timed("permutations", r.permutations, share)
+        r.timed("permutations", r.permutations, share if (thorough or not big) else 2)
         r.timed("edited", r.edited, 6 if thorough else 2)
         r.timed("traces", r.traces, traces)
     # random variants of the small trees (attributes / content / children dropped, added, changed)
     bases = [b for b in small_specs() if b[0] != "wide"]
-    n_var = 120 if thorough else 24
+    n_var = 120 if thorough else 14
     for k in range(n_var):
         lbl, sn = bases[k % len(bases)]
         vsn, how = mutate_spec(rng, sn)
         r = Runner(ctx, {"snapshot": vsn, "attach": True}, "variant:" + lbl + ":" + "+".join(how), rng, per_op=2)
         ctx.count("tree:variant")
         r.timed("singles", r.singles)
-        r.timed("sweep", r.sweep, sweep_starts(r.env, rng) if thorough else sweep_starts(r.env, rng, cap=0, n_inner=8, n_leaves=3))
-        r.timed("pairs", r.pairs, limit=120)
-        r.timed("permutations", r.permutations, 3)
+        r.timed("sweep", r.sweep, sweep_starts(r.env, rng) if thorough else sweep_starts(r.env, rng, cap=0, n_inner=5, n_leaves=3))
+        r.timed("pairs", r.pairs, limit=120 if thorough else 80)
+        r.timed("permutations", r.permutations, 3 if thorough else 2)
         r.timed("edited", r.edited, 1)
         if k < 8:
             r.timed("traces", r.traces, traces)
@@ -1025,21 +1050,22 @@ def run(ctx, only_spec=None):
         for kind, what, vsn in deletion_variants(sn):
             dels[kind].append((lbl + ":" + what, vsn))
     for kind in ("content", "child"):
-        if not thorough and len(dels[kind]) > 15:
-            dels[kind] = rng.sample(dels[kind], 15)
+        if not thorough and len(dels[kind]) > 10:
+            dels[kind] = rng.sample(dels[kind], 10)
     for kind in ("attr", "content", "child"):
         for lbl, vsn in dels[kind]:
             r = Runner(ctx, {"snapshot": vsn, "attach": True}, "without:" + lbl, rng, per_op=1)
             ctx.count("tree:without-one-" + kind)
-            r.timed("singles", r.singles)
-            r.timed("permutations", r.permutations, 1)
+            r.timed("singles", r.singles, repeat=thorough)
+            if thorough or r.env.n_tree <= 60:
+                r.timed("permutations", r.permutations, 1)
     if os.path.exists(os.path.join(common.REPO, full[1]["source"])):
         r = Runner(ctx, full[1], full[0], rng, per_op=3)
         ctx.count("tree:eml.xml")
         ctx.extra["eml_xml_nodes"] = r.env.n_tree
         r.timed("singles", r.singles)
         inner = [k for k in range(r.env.n_tree) if r.env.tree_nodes[k].children]
-        r.timed("sweep", r.sweep, [0] + rng.sample(inner, min(len(inner), 40 if thorough else 12)) +
+        r.timed("sweep", r.sweep, [0] + rng.sample(inner, min(len(inner), 40 if thorough else 8)) +
                 rng.sample([k for k in range(r.env.n_tree) if k not in inner], 5))
         r.timed("edited", r.edited, 3 if thorough else 1)
         r.timed("pairs", r.pairs, limit=None if thorough else 80)
